@@ -6,7 +6,10 @@ C08 line protocol.  One line = one whole case:
     <mode> <reraise> <tree> P<prog> R<obj> <node> <node> ...
 
   mode     M = remap(root, visit=prog, reraise_visit=reraise)
-           Q = research(root, query=prog, reraise=reraise) followed by get_path on every reported path
+           Q = research(root, query=prog, reraise=reraise) followed by get_path on every reported path,
+               for an implementation whose research hands the root itself to the query too
+           Qn = the same for an implementation whose research queries nested items only
+               (the harness probes the implementation for this convention; the statement leaves it free)
   reraise  0 | 1
   tree     1 = the object graph is a tree (no container referenced twice): additionally run the
                tree-level machine and the recursive specification on the unfolded value
@@ -20,13 +23,19 @@ C08 line protocol.  One line = one whole case:
   node     <K><items>  K in D L T S F; items separated by `,`; dict items are `<atom>=<obj>`;
            node ids are the positions of the node tokens, starting at 0
 
+           E~<enter>~<exit> = remap(root, visit=prog, enter=<enter>, exit=<exit>, reraise_visit=False) on a
+               tree (no container referenced twice), custom callbacks from the table-defined families
+               enter: dflt skipKind:<K> rev skipKey:<atom> asList depthLimit:<n>
+               exit:  dflt count keys pathLen keyOld oldKind
+               output `G=<generic loop> R=<generic recursion>`, label-free text of the result
 Output: `H=<heap level loop> [M=<heap level memoised recursion>] T=<tree machine> R=<tree recursion>`
 (M only for remap; T and R are `-` unless tree = 1).
   remap:    rebuilt value; containers `<K>#<label>[items]`, a repeated reference `^<label>`,
             labels in first-visit order, set members in the order of their label-free text,
             empty tuples / frozensets carry no label; errors `!TypeError` / `!ValueError`
   research: `;`-separated `<path>><value>:<status>`, path atoms separated by `/`, value = atom or
-            `<K><len>`, status = root | ok | neq | err   (`-` = nothing reported)
+            `<K><len>`, status = ok | neq | err   (`-` = nothing reported); the root's own entry
+            (path `(None,)`), if the implementation reports one, is not part of the output
 -/
 namespace C08.Driver
 open BV C08
@@ -269,44 +278,39 @@ def remapLine (pr : Prog) (reraise tree : Bool) (h : Heap) (root : Obj) : String
         ((match remapIter c v with | some r => showV r | none => "!TypeError"), showV (remapRec c v))
       | none => ("!unfold", "!unfold")
     else ("-", "-")
-  let mpart := match recRoot ⟨hprogVisit pr, reraise⟩ h root (hbound h) with
-    | some (st, v) => showH st.out v
+  let mpart := match recRootE ⟨hprogVisit pr, reraise⟩ h root (hbound h) with
+    | some (.ok st v) => showH st.out v
+    | some (.raised _) => errS .visitError
     | none =>
-      -- the recursion is specified for container roots; it returns nothing when a visit raises
-      if hpart.startsWith "!" then hpart else
+      -- the recursion is specified for container roots
       match root with
       | .atom _ => hpart
       | .ref _ => "!no-result"
   s!"H={hpart} M={mpart} T={tpart} R={rpart}"
 
-def entryS (p : Path) (k : Key) (vw : View) (status : String) : String :=
-  pathS (p ++ [k]) ++ ">" ++ viewS vw ++ ":" ++ status
-
-/-- evaluate the query on every logged `enter` call; `none` = the query raised and `reraise` is set -/
-def researchEntries {α : Type} (pr : Prog) (reraise : Bool) (view : α → View)
-    (status : Nat → Path → Key → α → String) :
-    Nat → List (Path × Key × α) → Option (List String)
-  | _, [] => some []
-  | i, (p, k, v) :: r =>
-    match (evalProg pr p k (view v)).truth with
-    | none => if reraise then none else researchEntries pr reraise view status (i + 1) r
-    | some false => researchEntries pr reraise view status (i + 1) r
-    | some true => (researchEntries pr reraise view status (i + 1) r).map fun l =>
-        entryS p k (view v) (status i p k v) :: l
+def entryS (path : Path) (vw : View) (status : String) : String :=
+  pathS path ++ ">" ++ viewS vw ++ ":" ++ status
 
 def showEntries : Option (List String) → String
   | none => "!ValueError"
   | some [] => "-"
   | some l => join ";" l
 
-def researchLine (pr : Prog) (reraise tree : Bool) (h : Heap) (root : Obj) : String :=
+/-- the root's own entry (present iff the root is queried and the query is truthy on it) is not part
+    of the output: the property speaks about nested items -/
+def dropRoot {α : Type} (hit : Bool) (l : List α) : List α := if hit then l.drop 1 else l
+
+def researchLine (rootQ : Bool) (pr : Prog) (reraise tree : Bool) (h : Heap) (root : Obj) : String :=
   let s := hfinal ⟨hkeepVisit, true⟩ h root
-  let hstatus : Nat → Path → Key → Obj → String := fun _ p k o =>
-    if o = root && (match o with | .ref _ => true | .atom _ => false) then "root" else
-    match hgetPath h root (p ++ [k]) with
+  let hq : Path → Key → Obj → Option Bool := fun p k o => (evalProg pr p k (objView h o)).truth
+  let hstatus : Path × Obj → String := fun pv =>
+    match hgetPath h root pv.1 with
     | none => "err"
-    | some o' => if o' = o then "ok" else "neq"
-  let hent := researchEntries pr reraise (objView h) hstatus 0 (enterLog s.trace)
+    | some o' => if o' = pv.2 then "ok" else "neq"
+  let rootIsCont := match root with | .ref _ => true | .atom _ => false
+  let hent := (hresearch rootQ hq reraise h root).map fun l =>
+    (dropRoot (rootQ && rootIsCont && hq [] .none root == some true) l).map fun pv =>
+      entryS pv.1 (objView h pv.2) (hstatus pv)
   let hpart := match hent, s.err with
     | none, _ => "!ValueError"
     | some _, some e => errS e
@@ -316,18 +320,57 @@ def researchLine (pr : Prog) (reraise tree : Bool) (h : Heap) (root : Obj) : Str
       match unfold h (h.length + 1) root with
       | some (.node kd its) =>
         let v := Val.node kd its
-        let tstatus : Nat → Path → Key → Val → String := fun i p k x =>
-          if i = 0 then "root" else
-          match getPath v (p ++ [k]) with
+        let tq : Path → Key → Val → Option Bool := fun p k x => (evalProg pr p k x.view).truth
+        let tstatus : Path × Val → String := fun pv =>
+          match getPath v pv.1 with
           | none => "err"
-          | some x' => if Val.same x' x then "ok" else "neq"
+          | some x' => if Val.same x' pv.2 then "ok" else "neq"
+        let hit := rootQ && tq [] .none v == some true
+        let fmt : Option (List (Path × Val)) → String := fun r =>
+          showEntries (r.map fun l => (dropRoot hit l).map fun pv => entryS pv.1 pv.2.view (tstatus pv))
         let mlog := (remapFinal ⟨keepVisit, defaultExit⟩ kd its).log
-        let rlog := ([], Atom.none, v) :: nestedLog v
-        (showEntries (researchEntries pr reraise Val.view tstatus 0 mlog),
-         showEntries (researchEntries pr reraise Val.view tstatus 0 rlog))
+        (fmt (researchRun tq reraise ((if rootQ then mlog.take 1 else []) ++ mlog.drop 1)),
+         fmt (research rootQ tq reraise v))
       | _ => ("!unfold", "!unfold")
     else ("-", "-")
   s!"H={hpart} T={tpart} R={rpart}"
+
+/-! custom enter / exit callbacks (mode `E~<enter>~<exit>`; tree level) -/
+
+def parseEnter? (cs : List Char) : Option EnterP :=
+  let (name, arg) := nameArg cs
+  match name with
+  | "dflt" => some .dflt
+  | "skipKind" => match arg with
+    | [c] => (parseKind? c).map EnterP.skipKind
+    | _ => none
+  | "rev" => some .rev
+  | "skipKey" => (parseAtom? arg).map EnterP.skipKey
+  | "asList" => some .asList
+  | "depthLimit" => (String.ofList arg).toNat?.map EnterP.depthLimit
+  | _ => none
+
+def parseExit? (cs : List Char) : Option ExitP :=
+  match String.ofList cs with
+  | "dflt" => some .dflt
+  | "count" => some .count
+  | "keys" => some .keys
+  | "pathLen" => some .pathLen
+  | "keyOld" => some .keyOld
+  | "oldKind" => some .oldKind
+  | _ => none
+
+def gresS : Option GRes → String
+  | none => "!fuel"
+  | some .typeError => "!TypeError"
+  | some (.ok v) => showV v
+
+def customLine (e : EnterP) (pr : Prog) (x : ExitP) (h : Heap) (root : Obj) : String :=
+  match unfold h (h.length + 1) root with
+  | none => "!unfold"
+  | some v =>
+    let c := progCfg e pr x
+    s!"G={gresS (gRemapIter c (2 * vsize v + 8) v)} R={gresS (gRoot c (vsize v + 2) v)}"
 
 def parseFlag? : String → Option Bool
   | "0" => some false
@@ -344,7 +387,15 @@ def handle (line : String) : String :=
       | none => "bad-op"
       | some root =>
         if mode = "M" then remapLine pr rr tr h root
-        else if mode = "Q" then researchLine pr rr tr h root
+        else if mode = "Q" then researchLine true pr rr tr h root
+        else if mode = "Qn" then researchLine false pr rr tr h root
+        else if mode.startsWith "E~" then
+          match splitChars '~' mode.toList with
+          | [_, e, x] =>
+            match parseEnter? e, parseExit? x with
+            | some e, some x => customLine e pr x h root
+            | _, _ => "bad-op"
+          | _ => "bad-op"
         else "bad-op"
     | _, _, _, _, _ => "bad-op"
   | _ => "bad-op"
